@@ -49,10 +49,20 @@ func scenarioC17(r *Run) {
 		return
 	}
 	conns := make([]*LConn, 1+nbg)
+	thinks := 0
 	for i := range conns {
 		lc := &LConn{I: i, TIdx: 0, Lsn: cfg.Listeners[0], Mode: "active"}
 		if i == 0 {
-			cp := append(Partition(c, payload, "closer-part"), Op{Kind: "close"})
+			cp := Partition(c, payload, "closer-part")
+			// think time (sampled): the closer pauses 1 s .. 2 min before, in the middle of, or after its
+			// writes, so that the connection is not brand new when its last data and the close happen
+			if c.Chance(1, 3, "think-time") {
+				w := Op{Kind: "wait", N: c.OneOf("think-s", 1, 10, 31, 45, 120)}
+				at := c.Pick(len(cp)+1, "think-at")
+				cp = append(append(append([]Op{}, cp[:at]...), w), cp[at:]...)
+				thinks = w.N
+			}
+			cp = append(cp, Op{Kind: "close"})
 			op := Partition(c, otherBytes, "other-part")
 			if closer == "app" {
 				lc.PlanA, lc.PlanT = cp, op
@@ -75,6 +85,10 @@ func scenarioC17(r *Run) {
 	r.Info["other_side_writes"] = otherBytes
 	r.Info["first_writer"] = first
 	r.Info["background"] = nbg
+	r.Info["closer_think_time_s"] = thinks
+	if thinks > 0 {
+		r.Count("runs_with_think_time")
+	}
 	r.Info["sockbuf"] = r.Net.DefaultCap
 
 	// background connections come up first (or not at all)
